@@ -32,6 +32,12 @@ def cases(tier, seed):
         for combo in itertools.permutations(ivs, k):
             yield {"kind": "map", "intervals": [list(x) for x in combo]}
     yield {"kind": "falsy"}
+    # bounds that no double represents exactly (integers beyond 2**53, fractions): the map works on the numbers it was given
+    B = 2 ** 53
+    for ivs in ([[B, B], [B + 1, B + 1], [B + 2, B + 3]], [[B + 1, B + 1]], [[10 ** 30, 10 ** 30 + 1], [10 ** 30 + 2, 10 ** 30 + 2]],
+                [[-B - 1, -B - 1], [-B, -B]]):
+        yield {"kind": "map", "intervals": ivs, "probes": "exact-int"}
+    yield {"kind": "fractions"}
     rng = random.Random(seed)
     b = BOUNDS[tier]["random"]
     for _ in range(b["count"]):
@@ -78,9 +84,31 @@ def _run_falsy(case):
         return f.result
 
 
+def _run_fractions(case):
+    from fractions import Fraction as Fr
+    try:
+        ivs = [(Fr(1, 10), Fr(2, 10)), (Fr(3, 10), Fr(3, 10)), (Fr(1, 3), Fr(2, 3))]
+        mapping = {iv: i for i, iv in enumerate(ivs)}
+        m = call("intervalmap/exact-bounds/construct", ImmutIntervalMap, mapping)[1]
+        for i, (a, b) in enumerate(ivs):
+            for k in (a, b, (a + b) / 2):
+                r = call("intervalmap/exact-bounds/lookup", m.__getitem__, k, allowed=(KeyError,))
+                check(r == ("value", i), "intervalmap/exact-bounds/lookup", ("value", i), {"key": str(k), "result": r})
+        for k in (Fr(1, 10) - Fr(1, 10 ** 20), Fr(2, 10) + Fr(1, 10 ** 20), Fr(3, 10) + Fr(1, 10 ** 20), 0.30000000000000004):
+            r = call("intervalmap/exact-bounds/gap", m.__contains__, k)[1]
+            check(r is False, "intervalmap/exact-bounds/gap", False, {"key": str(k), "in": r})
+        got = call("intervalmap/iteration", lambda: take(iter(m), 4))[1]
+        check(got == [(iv, mapping[iv]) for iv in sorted(ivs)], "intervalmap/exact-bounds/iteration", "the given bounds", str(got))
+        return ok("intervalmap/exact-bounds")
+    except Fail as f:
+        return f.result
+
+
 def run_case(case):
     if case.get("kind") == "falsy":
         return _run_falsy(case)
+    if case.get("kind") == "fractions":
+        return _run_fractions(case)
     ivs = [tuple(x) for x in case["intervals"]]
     try:
         mapping = {iv: ["val", list(iv)] for iv in ivs}
@@ -98,7 +126,16 @@ def run_case(case):
         got = call("intervalmap/iteration", lambda: take(iter(m), len(ivs) + 1))[1]
         exp = [(iv, mapping[iv]) for iv in sorted(ivs)]
         check(got == exp, "intervalmap/iteration", exp, got)
-        if case.get("probes") == "derived":
+        # a map can be iterated any number of times, also with two iterators alive at once
+        it1, it2 = iter(m), iter(m)
+        inter = [x for pair in zip(it1, it2) for x in pair]
+        check(inter == [x for e_ in exp for x in (e_, e_)], "intervalmap/iteration-repeated", "two interleaved iterations list every item", inter)
+        got = call("intervalmap/iteration", lambda: take(iter(m), len(ivs) + 1))[1]
+        check(got == exp, "intervalmap/iteration-repeated", exp, {"second full iteration": got})
+        if case.get("probes") == "exact-int":
+            ends = sorted({e for iv in ivs for e in iv})
+            probes = sorted(set(ends + [e - 1 for e in ends] + [e + 1 for e in ends]))
+        elif case.get("probes") == "derived":
             ends = sorted({e for iv in ivs for e in iv})
             probes = sorted(set(ends + [e - 0.25 for e in ends] + [e + 0.25 for e in ends]
                                 + [(a + b) / 2 for a, b in zip(ends, ends[1:])] + [ends[0] - 1, ends[-1] + 1]))
